@@ -82,7 +82,22 @@ def absorb_mc(rep, pid, recs, aspects, describe, need_nontrivial=False):
             if path:
                 rep.violation('%s: result differs from the reference semantics; reproduces natively: %s' % (key, out.strip().splitlines()[-4:-1]), path)
             else:
-                rep.inconclusive('%s: counterexample does not reproduce natively: %s' % (key, out[-300:]))
+                path2 = None
+                if rec.get('formula_changed'):
+                    # the evaluator saw the call rewrite the caller's formula object in place (the oracle, built from that object after
+                    # the call, then describes another formula): natively, the same object passed twice must give the reference answer twice
+                    body = ("f = mods[%r].Parser()(%r)\nr1 = run(%r, f, K)\nr2 = run(%r, f, K)\nwant = explicit.sat_states(explicit.Struct(n, R, L), CTLS.Parser()(%r))\n"
+                            "print('first call ->', r1, '; second call with the same formula object ->', r2, '; reference ->', want, '; formula now:', f)\n"
+                            "bad = [] if (isinstance(r2, set) and norm(r2) == want and isinstance(r1, set) and norm(r1) == want) else ['the same formula object passed twice: %%r then %%r, reference %%r' %% (r1, r2, want)]\n"
+                            % (rec['logic'], rec['formula'], rec['logic'], rec['logic'], rec['formula']))
+                    for mdl in (rec.get('model'), None):
+                        path2, out2 = mc.gen_replay(pid, rec, mdl, body, {})
+                        if path2:
+                            break
+                if path2:
+                    rep.violation('%s: the call rewrites the formula object in place; passing it again gives a wrong answer: %s' % (key, out2.strip().splitlines()[-3:-1]), path2)
+                else:
+                    rep.inconclusive('%s: counterexample does not reproduce natively: %s' % (key, out[-300:]))
         if 'noexc' in aspects and rec.get('noexc') == 'sat':
             path, out = mc.mc_replay(pid, rec, rec.get('exc_model'))
             if path:
@@ -574,7 +589,7 @@ def absorb_aspects(rep, pid, t, recs, aspects, describe):
                     mm.update(rec.get('fixed') or {})
                     fs = [[i for i in range(rec['n']) if (True if opts.get('fair_const') else mm.get('f%d_%d' % (k_, i)))] for k_ in range(opts['fair'])]
                     body = ("F = [set(states[i] for i in s_) for s_ in %r]\na = run(%r, %r, K, F=F)\n" % (fs, rec['logic'], rec['formula']) + k2 +
-                            "run(%r, %r, K2)\nb = run(%r, %r, K, F=F)\n" % (rec['logic'], rec['formula'], rec['logic'], rec['formula']) + tail)
+                            "run(%r, %r, K2, F=None)\nb = run(%r, %r, K, F=F)\n" % (rec['logic'], rec['formula'], rec['logic'], rec['formula']) + tail)
             else:
                 rep.inconclusive('%s: aspect %s sat (no replay template)' % (key, a))
                 continue
@@ -593,6 +608,17 @@ def absorb_aspects(rep, pid, t, recs, aspects, describe):
                 rep.violation('%s [formula object modified]: %s' % (key, out.strip().splitlines()[-3:-1]), path)
             else:
                 rep.inconclusive('%s: the evaluator saw the formula object change but the native replay does not: %s' % (key, out[-200:]))
+        if ('pure' not in aspects) and rec.get('formula_changed') and not opts.get('fair'):
+            # exactness checks: a formula object that the call rewrites in place gives a wrong answer when it is passed again
+            body = ("f = mods[%r].Parser()(%r)\nr1 = run(%r, f, K)\nr2 = run(%r, f, K)\nwant = explicit.sat_states(explicit.Struct(n, R, L), CTLS.Parser()(%r))\n"
+                    "print('first call ->', r1, '; second call with the same formula object ->', r2, '; reference ->', want, '; formula now:', f)\n"
+                    "bad = [] if (isinstance(r2, set) and norm(r2) == want and isinstance(r1, set) and norm(r1) == want) else ['the same formula object passed twice: %%r then %%r, reference %%r' %% (r1, r2, want)]\n"
+                    % (rec['logic'], rec['formula'], rec['logic'], rec['logic'], fm))
+            for mdl in [rec.get('model'), None]:
+                path, out = mc.gen_replay(pid, rec, mdl, body, opts)
+                if path:
+                    rep.violation('%s [formula object modified by the call]: %s' % (key, out.strip().splitlines()[-3:-1]), path)
+                    break
         if ('pure' in aspects) and rec.get('shared'):
             rep.inconclusive('%s: result object shared with K' % key)
         au = rec.get('audit')
